@@ -445,7 +445,7 @@ def extra_C12(cases, impl):
 
 # ---------------------------------------------------------------- file level (C05, C07, C08, C10, C11, C12)
 FILE_AMBIG = b"NnRYKM-*."      # what may stand in a sequence line: printable, no whitespace, not '>' '+' '@'
-CONTAINERS = ["fa", "faw", "facrlf", "fq", "fagz", "fqgz", "fagzm", "fagz0"]
+CONTAINERS = ["fa", "faw", "facrlf", "fq", "fagz", "fqgz", "fagzm", "fagz0", "fqgzm"]
 ALIGNED = ["fagza", "fagzb", "fagzc", "fagzd"]
 
 def gen_file_seq(r, k, maxlen=120, allow_empty=True):
@@ -825,8 +825,9 @@ def gen_C06(r, tier):
         fq = r.below(3) == 0
         nrec = r.pick([0, 1, 2]) if r.below(6) == 0 else r.below(25)
         eol = b"\r\n" if r.below(4) == 0 else b"\n"
-        recs = []; text = bytearray()
+        recs = []; text = bytearray(); bounds = []
         for i in range(nrec):
+            bounds.append(len(text))
             rid = bytes(r.choices(IDCHARS, k=1 + r.below(12)))
             if fq and rid[:1] == b"@" : rid = b"r" + rid
             desc = b""
@@ -858,8 +859,12 @@ def gen_C06(r, tier):
         gz = r.below(3) == 0
         if gz and text:
             cuts = sorted(set(r.below(len(text) + 1) for _ in range(r.pick([0, 1, 2, 5]))))
+            if bounds and r.below(3) == 0:                       # files joined with cat: members end at record boundaries
+                cuts = sorted(set(r.pick(bounds) for _ in range(r.pick([1, 2, 3]))))
             members = [text[a:b] for a, b in zip([0] + cuts, cuts + [len(text)])]
             if r.below(3) == 0: members.append(b"")              # empty final member (bgzip EOF block)
+            if r.below(3) == 0:                                  # empty members in between (two bgzip files joined with cat)
+                for _ in range(r.pick([1, 1, 2])): members.insert(r.below(len(members) + 1), b"")
         else:
             members = [text]
         exp = ",".join(hx(i) + ":" + hx(s_) for i, s_ in recs) or "_"
